@@ -23,10 +23,12 @@ func TestVerifC10Access(tt *testing.T) {
 		"blocked-global-net", "blocked-global-name", "blocked-profile-net", "blocked-profile-asn", "blocked-profile-name",
 		"allow-net-over-block-net", "allow-net-over-block-asn", "allow-asn-over-block-net", "allow-asn-over-block-asn",
 		"passed-profile", "passed-anon", "blocked-after-cached", "typed-rule-other-qtype-passes", "exception-rule-passes",
-		"blocked-subdomain-of-rule", "anon-ignores-profile-rules")
+		"blocked-subdomain-of-rule", "anon-ignores-profile-rules",
+		"blocked-with-malformed-ecs", "blocked-by-profile-with-malformed-ecs", "blocked-with-bad-device-id",
+		"passed-malformed-ecs-formerr", "passed-bad-device-id")
 	st.Finish(tt)
 
-	opts := vfsOpts{AccessHeavy: true}
+	opts := vfsOpts{AccessHeavy: true, Malformed: true}
 
 	rapid.Check(tt, func(t *rapid.T) {
 		conf := vfsDrawConfig(t, opts)
@@ -113,6 +115,47 @@ func TestVerifC10Access(tt *testing.T) {
 				if r.Debug() {
 					classes = append(classes, "blocked-debug-class")
 				}
+
+				if r.BadECS {
+					classes = append(classes, "blocked-with-malformed-ecs")
+					if !v.GlobalNet && !v.GlobalName {
+						classes = append(classes, "blocked-by-profile-with-malformed-ecs")
+					}
+				}
+
+				if r.BadSNI {
+					classes = append(classes, "blocked-with-bad-device-id")
+				}
+			} else if r.BadSNI {
+				// Not access-blocked, invalid device ID: the documented error
+				// treatment (the handler returns an error and the server
+				// answers SERVFAIL); only "at most one response" is judged.
+				responses := len(tr.Writes)
+				if tr.Err != nil {
+					responses++
+				}
+
+				if responses > 1 {
+					fail("bad device ID: %d responses (handler writes %d, error %v makes the server add SERVFAIL)", responses, len(tr.Writes), tr.Err)
+				}
+
+				classes = append(classes, "passed-bad-device-id")
+			} else if r.BadECS {
+				// Not access-blocked, malformed ECS: exactly one response, a
+				// FORMERR, and nothing downstream.
+				if tr.Err != nil {
+					fail("malformed ECS: handler error %v (the server would add a SERVFAIL)", tr.Err)
+				}
+
+				if len(tr.Writes) != 1 || tr.Writes[0].Rcode != dns.RcodeFormatError || tr.Writes[0].Id != r.ID {
+					fail("malformed ECS: want exactly one FORMERR response")
+				}
+
+				if n := tr.Downstream(); n != 0 {
+					fail("malformed ECS: request reached a later stage (%d events)", n)
+				}
+
+				classes = append(classes, "passed-malformed-ecs-formerr")
 			} else {
 				if tr.Err != nil {
 					fail("request that no rule rejects: handler error %v", tr.Err)
@@ -227,7 +270,7 @@ func TestVerifC10Access(tt *testing.T) {
 					acc = conf.Profiles[r.Prof].Access.String()
 				}
 
-				nt = fmt.Sprintf("%+v|%s|%s|%d|%s|%d|%v|%q|%s", v, r.Server, r.Client, asn, host, r.QType, conf.GlobalNets, vfsRuleTexts(conf.GlobalRules), acc)
+				nt = fmt.Sprintf("%+v|%s|%s|%d|%s|%d|%v|%q|%s|%t|%t", v, r.Server, r.Client, asn, host, r.QType, conf.GlobalNets, vfsRuleTexts(conf.GlobalRules), acc, r.BadECS, r.BadSNI)
 			}
 
 			st.Case(nt, classes...)
